@@ -424,7 +424,10 @@ EXTRA = {
            "together with the widths.",
     "C17": " Two-assignment sequences pair a field of one layer with a structure-selecting field re-assigned the value it "
            "already has (structure unchanged, so every later read stays decided), in both orders.",
-    "C19": " Every 4th history reads the same bytes as a stream on standard input (pcap_stream(stdin)) through the binary.",
+    "C19": " Every 4th history reads the same bytes as a stream on standard input (pcap_stream(stdin)) through the binary; the "
+           "record header pcap_write writes is compared too. NothingLost is also discharged as an inductive invariant by "
+           "Apalache (spec/PcapFileInd.tla, the typed form of the machine): base case and inductive step for every file of up "
+           "to 5 records of arbitrary content, i.e. for call histories of every length.",
     "C20": " A third of the streams have a snaplen equal to the longest captured length.",
     "C23": " Rejected lines include ones the compiler rejects after entering nested scopes and making definitions there (block, "
            "if, loop, named function body, anonymous function); later lines read names from nested scopes.",
